@@ -87,7 +87,7 @@ example : let c : Cfg := ⟨⟨9, 4⟩, 2048, [(0, 1)], 0, fun _ _ _ => .invalid
     specification allows it; it then frees exactly the frames of the block (splitting a whole
     huge frame on a partial free), nothing else changes in the allocation state, and the
     invariant is re-established; a refused free leaves the *entire* memory unchanged. -/
-theorem put_refines (c : Cfg) (ok : CfgOk c) (H : Nat → Prop) (m : Mem) (inv : UpperInv0 c H m) (frame : Nat) (r : Request)
+theorem put_refines (c : Cfg) (ok : CfgOk c) (H : Nat → Nat) (m : Mem) (inv : UpperInv0 c H m) (frame : Nat) (r : Request)
     (hcls : r.cls < 8) (hloc : r.locOk c) (hv : C08.ArgsValid c frame r) :
     (PutAllowed c m frame r.order →
       Runs m (put c frame r) (fun res m' => res = .ok () ∧ UpperInv0 c H m' ∧
@@ -99,17 +99,17 @@ theorem put_refines (c : Cfg) (ok : CfgOk c) (H : Nat → Prop) (m : Mem) (inv :
     success returns an aligned block that was entirely free (exactly the target if one was
     given) and exactly its frames become allocated; a failure is `Memory` and leaves the
     allocation status of every frame unchanged; the invariant is re-established. -/
-theorem get_refines (c : Cfg) (ok : CfgOk c) (H : Nat → Prop) (m : Mem) (inv : UpperInv0 c H m) (frame : Option Nat) (r : Request)
+theorem get_refines (c : Cfg) (ok : CfgOk c) (H : Nat → Nat) (m : Mem) (inv : UpperInv0 c H m) (frame : Option Nat) (r : Request)
     (hcls : r.cls < 8) (hloc : r.locOk c) (hv : C08.ArgsValid c (frame.getD 0) r) :
     Runs m (get c frame r) (fun res m' => UpperInv0 c H m' ∧ GetOutcome c m r.order frame res m') :=
   upper_get_spec ok inv frame r hcls hloc hv
 
 /-- drains and tree changes do not change the allocation status of any frame -/
-theorem drain_keeps_allocation (c : Cfg) (ok : CfgOk c) (H : Nat → Prop) (m : Mem) (inv : UpperInv0 c H m) :
+theorem drain_keeps_allocation (c : Cfg) (ok : CfgOk c) (H : Nat → Nat) (m : Mem) (inv : UpperInv0 c H m) :
     Runs m (drain c) (fun _ m' => UpperInv0 c H m' ∧ SameAlloc m m') :=
   (drain_spec ok inv).mono (fun _ _ h => ⟨h.1, h.2.1⟩)
 
-theorem change_keeps_allocation (c : Cfg) (ok : CfgOk c) (H : Nat → Prop) (m : Mem) (inv : UpperInv0 c H m)
+theorem change_keeps_allocation (c : Cfg) (ok : CfgOk c) (H : Nat → Nat) (m : Mem) (inv : UpperInv0 c H m)
     (mid mcls : Option Nat) (mfree : Nat) (ccls : Option Nat) (op : Option Tree.Op) (hccls : ∀ k, ccls = some k → k < 8) :
     Runs m (changeTree c mid mcls mfree ccls op) (fun _ m' => SameAlloc m m' ∧ ∃ H', UpperInv0 c H' m') :=
   (changeTree_spec ok inv mid mcls mfree ccls op hccls).mono (fun _ _ h => by
@@ -120,7 +120,7 @@ theorem change_keeps_allocation (c : Cfg) (ok : CfgOk c) (H : Nat → Prop) (m :
     without panic and ends in a state satisfying the invariant (so the theorems above apply to
     every call of every history). -/
 theorem history_keeps_invariant (c : Cfg) (ok : CfgOk c) (calls : List Call) (hvalid : ∀ x ∈ calls, x.valid c)
-    (H : Nat → Prop) (m : Mem) (inv : UpperInv0 c H m) :
+    (H : Nat → Nat) (m : Mem) (inv : UpperInv0 c H m) :
     Runs m (runCalls c calls) (fun _ m' => ∃ H', UpperInv0 c H' m') := calls_safe ok calls hvalid H m inv
 
 /-- Non-vacuity of `CfgOk`: the default geometry with two classes (2 slots each) and the
